@@ -233,7 +233,9 @@ def compile_alt_fast(
 
 
 def symbolize_minima_expression(
-    minima: dict[int, list[MinimaTriple]], gamma_plus_zero: bool = False
+    minima: dict[int, list[MinimaTriple]],
+    gamma_plus_zero: bool = False,
+    fixed_gamma_plus: dict[int, int] | None = None,
 ) -> dict[int, list[FNode]]:
     """
     Convert minima expression to symbolic form.
@@ -273,8 +275,12 @@ def symbolize_minima_expression(
             # of every (other) conditional it falsifies, plus gamma_plus of every (other)
             # conditional it verifies (the latter vanish when gamma_plus is fixed to zero).
             terms = [_gamma(f"gamma-_{i}") for i in rejected_indices]
-            if not gamma_plus_zero:
-                terms.extend(_gamma(f"gamma+_{i}") for i in accepted_indices)
+            for i in accepted_indices:
+                if fixed_gamma_plus and i in fixed_gamma_plus:
+                    # a fixed gamma_plus is a constant of the revised rank, not a variable
+                    terms.append(Int(int(fixed_gamma_plus[i])))
+                elif not gamma_plus_zero:
+                    terms.append(_gamma(f"gamma+_{i}"))
             if terms:
                 results[index].append(Plus(terms + [Int(rank)]))
             else:
@@ -343,8 +349,12 @@ def translate_to_csp(
             gteZeros.append(GE(gamma_plus, Int(0)))
         if getattr(gamma_minus, "is_symbol", lambda: False)():
             gteZeros.append(GE(gamma_minus, Int(0)))
-    vSums = symbolize_minima_expression(compilation[0], gamma_plus_zero)
-    fSums = symbolize_minima_expression(compilation[1], gamma_plus_zero)
+    vSums = symbolize_minima_expression(
+        compilation[0], gamma_plus_zero, fixed_gamma_plus
+    )
+    fSums = symbolize_minima_expression(
+        compilation[1], gamma_plus_zero, fixed_gamma_plus
+    )
     csp = encoding(gammas, vSums, fSums)
     csp.extend(gteZeros)
     return csp
